@@ -195,7 +195,15 @@ def worker_entry(argv):
     if hasattr(mod, 'worker_main'):
       mod.worker_main(ctx, rng, ncases)
     else:
+      known = {k for (p, k), f in load_known().items()
+               if p == pid and f.get('status') == 'known'}
       for case in mod.iter_cases(ctx, rng, ncases):
+        # The verdict is decided once unlisted violations pile up; a broken
+        # tree may also leak state that makes later cases ever slower, so stop
+        # rather than run into the watchdog (which would lose the witnesses).
+        if sum(n for k, n in ctx.viol_counts.items() if k not in known) >= 300:
+          ctx.note('stopped_early_after_violations', ctx.case_no)
+          break
         ctx.case_no += 1
         ctx.cur_case = case
         try:
